@@ -1,2 +1,361 @@
-From Coq Require Import ZArith List.
-From KV Require Import Model.C04.
+(* C04 — proofs about the model of pkg/altbn128 (Model/C04.v).  Algebra in Proofs/C04_alg.v. *)
+From Coq Require Import ZArith NArith Znumtheory Zpow_facts List Bool Lia Setoid Morphisms.
+From Bignums Require Import BigZ.
+From KV Require Import Common.Verdict Gen.Consts_C04 Model.C04 Proofs.C04_alg.
+Import ListNotations.
+Open Scope Z_scope.
+
+(* ================================================================== *)
+(* bytes *)
+Lemma to_bytes_length n v : length (to_bytes n v) = n.
+Proof. induction n as [|n IH]; cbn [to_bytes length]; congruence. Qed.
+
+Lemma be_nonneg l : 0 <= be l.
+Proof.
+  induction l as [|b t IH]; cbn [be]; [lia|].
+  assert (0 <= 256 ^ Z.of_nat (length t)) by (apply Z.pow_nonneg; lia). nia.
+Qed.
+
+Lemma be_to_bytes n v : 0 <= v -> be (to_bytes n v) = v mod 256 ^ Z.of_nat n.
+Proof.
+  intros Hv. induction n as [|n IH].
+  - cbn. symmetry. apply Z.mod_1_r.
+  - cbn [to_bytes be]. rewrite to_bytes_length, IH.
+    assert (Hpos : 0 < 256 ^ Z.of_nat n) by (apply Z.pow_pos_nonneg; lia).
+    rewrite Z2N.id by (apply Z.mod_pos_bound; lia).
+    rewrite Nat2Z.inj_succ, Z.pow_succ_r, (Z.mul_comm 256) by lia.
+    rewrite Z.rem_mul_r by lia. ring.
+Qed.
+
+Lemma firstn_app_len {A} (a b : list A) n : length a = n -> firstn n (a ++ b) = a.
+Proof. intros <-. rewrite firstn_app, Nat.sub_diag, firstn_all, firstn_O, app_nil_r. reflexivity. Qed.
+Lemma skipn_app_len {A} (a b : list A) n : length a = n -> skipn n (a ++ b) = b.
+Proof. intros <-. rewrite skipn_app, Nat.sub_diag, skipn_all. reflexivity. Qed.
+
+Lemma pow256_31 : 256 ^ Z.of_nat 31 = 2 ^ 248. Proof. reflexivity. Qed.
+Lemma pow256_32 : 256 ^ Z.of_nat 32 = 2 ^ 256. Proof. reflexivity. Qed.
+
+Lemma to_bytes_32 v :
+  to_bytes 32 v = Z.to_N ((v / 256 ^ Z.of_nat 31) mod 256) :: to_bytes 31 v.
+Proof. reflexivity. Qed.
+
+Lemma top_byte_small v : 0 <= v < 2 ^ 255 ->
+  (Z.to_N ((v / 256 ^ Z.of_nat 31) mod 256) < 128)%N.
+Proof.
+  intros Hv. rewrite pow256_31.
+  assert (H : 0 <= v / 2 ^ 248 < 128).
+  { split; [apply Z.div_pos; lia|]. apply Z.div_lt_upper_bound; lia. }
+  rewrite Z.mod_small by lia. lia.
+Qed.
+
+Lemma top_ops_table :
+  forallb (fun b => forallb (fun par =>
+     N.eqb (strip_top (N.lor b (N.shiftl par 7))) b && N.eqb (top_bit (N.lor b (N.shiftl par 7))) par)
+     [0; 1]%N) (map N.of_nat (seq 0 128)) = true.
+Proof. vm_compute. reflexivity. Qed.
+
+Lemma top_ops b par : (b < 128)%N -> (par = 0 \/ par = 1)%N ->
+  strip_top (N.lor b (N.shiftl par 7)) = b /\ top_bit (N.lor b (N.shiftl par 7)) = par.
+Proof.
+  intros Hb Hpar. pose proof top_ops_table as T. rewrite forallb_forall in T.
+  specialize (T b). rewrite forallb_forall in T.
+  assert (Hin : In b (map N.of_nat (seq 0 128))).
+  { apply in_map_iff. exists (N.to_nat b). split; [apply N2Nat.id|]. apply in_seq. lia. }
+  specialize (T Hin par).
+  assert (Hp : In par [0; 1]%N) by (cbn; destruct Hpar; auto).
+  specialize (T Hp). apply andb_true_iff in T. destruct T as [T1 T2].
+  apply N.eqb_eq in T1, T2. split; assumption.
+Qed.
+
+Lemma y_parity_01 y : (y_parity y = 0 \/ y_parity y = 1)%N.
+Proof.
+  unfold y_parity. pose proof (Z.mod_pos_bound y 2 ltac:(lia)) as H.
+  assert (E : y mod 2 = 0 \/ y mod 2 = 1) by lia. destruct E as [-> | ->]; auto.
+Qed.
+
+(* ================================================================== *)
+(* big.Int.ModSqrt for p = 3 mod 4 *)
+Lemma powmod_spec p a e : 0 < p -> powmod p a e = (a ^ Z.pos e) mod p.
+Proof.
+  intros Hp. induction e as [e IH|e IH|]; cbn [powmod].
+  - rewrite IH, Pos2Z.inj_xI.
+    replace (2 * Z.pos e + 1) with (Z.pos e + Z.pos e + 1) by lia.
+    rewrite !Z.pow_add_r, Z.pow_1_r by lia.
+    apply cg_E. rewrite !(cg_mod p). reflexivity.
+  - rewrite IH, Pos2Z.inj_xO.
+    replace (2 * Z.pos e) with (Z.pos e + Z.pos e) by lia.
+    rewrite Z.pow_add_r by lia.
+    apply cg_E. rewrite !(cg_mod p). reflexivity.
+  - rewrite Z.pow_1_r. reflexivity.
+Qed.
+
+Lemma powmod_range p a e : 0 < p -> 0 <= powmod p a e < p.
+Proof. intros Hp. rewrite powmod_spec by assumption. apply Z.mod_pos_bound. assumption. Qed.
+
+(* soundness of the model's ModSqrt needs no primality: the candidate is checked *)
+Lemma mod_sqrt_sound p c s : 4 <= p -> mod_sqrt p c = Some s ->
+  0 <= s < p /\ (s * s) mod p = c mod p.
+Proof.
+  intros Hp. unfold mod_sqrt.
+  assert (H4 : 1 <= (p + 1) / 4) by (apply Z.div_le_lower_bound; lia).
+  destruct ((p + 1) / 4) as [|e|e] eqn:Ee; try lia.
+  destruct (Z.eqb_spec ((powmod p (c mod p) e * powmod p (c mod p) e) mod p) (c mod p)) as [E|]; [|discriminate].
+  intros [= <-]. split; [apply powmod_range; lia|exact E].
+Qed.
+
+Section Sqrt.
+  Variable p : Z.
+  Hypothesis Hp : prime p.
+  Hypothesis Hp4 : p mod 4 = 3.
+  Hypothesis Hp3 : 3 < p.
+
+  (* completeness: every square has a root, found by the exponentiation *)
+  Lemma mod_sqrt_complete c y : c mod p = (y * y) mod p ->
+    exists s, mod_sqrt p c = Some s /\ 0 <= s < p /\ (s * s) mod p = (y * y) mod p.
+  Proof.
+    intros Ec. unfold mod_sqrt.
+    assert (H4 : 1 <= (p + 1) / 4) by (apply Z.div_le_lower_bound; lia).
+    pose proof (sqrt_3mod4 p Hp Hp4 y) as S. cbv zeta in S.
+    destruct ((p + 1) / 4) as [|e|e] eqn:Ee; try lia.
+    rewrite powmod_spec, Ec by lia. rewrite S, Z.eqb_refl.
+    eexists. split; [reflexivity|]. split; [apply Z.mod_pos_bound; lia|exact S].
+  Qed.
+End Sqrt.
+
+(* ================================================================== *)
+(* G1 *)
+Section G1.
+  Variable p : Z.
+  Hypothesis Hp : prime p.
+  Hypothesis Hp4 : p mod 4 = 3.
+  Hypothesis Hp3 : 3 < p.
+  Hypothesis Hp255 : p < 2 ^ 255.
+
+  Lemma compress1_aff x y : 0 <= x -> 0 <= y < 2 ^ 256 ->
+    compress1 (Aff1 x y) = set_top (y_parity y) (to_bytes 32 x).
+  Proof.
+    intros Hx Hy. cbv beta iota zeta delta [compress1 marshal1].
+    rewrite firstn_app_len, skipn_app_len by apply to_bytes_length.
+    rewrite be_to_bytes, pow256_32, Z.mod_small by lia. reflexivity.
+  Qed.
+
+  Lemma decompress1_set_top ms x par : 0 <= x < 2 ^ 255 -> (par = 0 \/ par = 1)%N ->
+    decompress1 p ms (set_top par (to_bytes 32 x)) =
+    match ms (x * x * x + curveB) with
+    | None => Err1
+    | Some s => g1_from_ints p x (if N.eqb par (y_parity s) then s else p + - s)
+    end.
+  Proof.
+    intros Hx Hpar. rewrite to_bytes_32. cbn [set_top].
+    cbv beta iota zeta delta [decompress1].
+    destruct (top_ops _ par (top_byte_small x Hx) Hpar) as [T1 T2].
+    rewrite T1, T2, <- to_bytes_32.
+    rewrite be_to_bytes, pow256_32, Z.mod_small by lia. reflexivity.
+  Qed.
+
+  Lemma g1_from_ints_valid x y : valid1 p (Aff1 x y) = true -> g1_from_ints p x y = R1 (Aff1 x y).
+  Proof.
+    cbn [valid1]. rewrite !andb_true_iff. intros [[[[H1 H2] H3] H4] H5].
+    apply Z.leb_le in H1, H3. apply Z.ltb_lt in H2, H4.
+    unfold g1_from_ints, two256.
+    destruct (Z.leb_spec (2 ^ 256) x); [lia|]. destruct (Z.leb_spec (2 ^ 256) y); [lia|].
+    destruct (Z.leb_spec p x); [lia|]. destruct (Z.leb_spec p y); [lia|].
+    cbn [orb]. rewrite H5.
+    destruct (Z.eqb_spec x 0) as [->|]; [|reflexivity].
+    destruct (Z.eqb_spec y 0) as [->|]; [|reflexivity].
+    exfalso. apply Z.eqb_eq in H5. unfold curveB in H5.
+    change (0 * 0) with 0 in H5. change (0 * 0 * 0 + 3) with 3 in H5.
+    rewrite Z.mod_0_l, Z.mod_small in H5; lia.
+  Qed.
+
+  Theorem g1_roundtrip_gen x y : valid1 p (Aff1 x y) = true ->
+    decompress1 p (mod_sqrt p) (compress1 (Aff1 x y)) = R1 (Aff1 x y).
+  Proof.
+    intros V. pose proof V as V'.
+    cbn [valid1] in V'. rewrite !andb_true_iff in V'. destruct V' as [[[[H1 H2] H3] H4] H5].
+    apply Z.leb_le in H1, H3. apply Z.ltb_lt in H2, H4. apply Z.eqb_eq in H5.
+    rewrite compress1_aff by lia.
+    rewrite decompress1_set_top by (try lia; apply y_parity_01).
+    destruct (mod_sqrt_complete p Hp Hp4 Hp3 (x * x * x + curveB) y (eq_sym H5)) as [s [-> [Hs E]]].
+    apply (sqr_eq_mod p Hp) in E.
+    assert (Hodd : p mod 2 = 1).
+    { pose proof (Z.div_mod p 4 ltac:(lia)). rewrite Hp4 in H.
+      rewrite H. replace (4 * (p / 4) + 3) with (1 + (2 * (p / 4) + 1) * 2) by ring.
+      rewrite Z.mod_add by lia. reflexivity. }
+    destruct E as [E|E].
+    - rewrite !Z.mod_small in E by lia. subst s. rewrite N.eqb_refl.
+      apply g1_from_ints_valid. exact V.
+    - destruct (Z.eq_dec y 0) as [->|Hy].
+      + rewrite Z.mod_0_l, Z.mod_small in E by lia. subst s. rewrite N.eqb_refl.
+        apply g1_from_ints_valid. exact V.
+      + rewrite Z.mod_small in E by lia.
+        assert (Es : s = p - y).
+        { subst s. symmetry. apply Z.mod_unique with (-1); lia. }
+        clear E. subst s.
+        assert (Hpar : N.eqb (y_parity y) (y_parity (p - y)) = false).
+        { apply N.eqb_neq. unfold y_parity. intros Epar. apply Z2N.inj in Epar;
+            try (apply Z.mod_pos_bound; lia).
+          pose proof (Z.div_mod p 2 ltac:(lia)) as D1.
+          pose proof (Z.div_mod y 2 ltac:(lia)) as D2.
+          pose proof (Z.div_mod (p - y) 2 ltac:(lia)) as D3.
+          pose proof (Z.mod_pos_bound y 2 ltac:(lia)). lia. }
+        rewrite Hpar. replace (p + - (p - y)) with y by ring.
+        apply g1_from_ints_valid. exact V.
+  Qed.
+End G1.
+
+(* ---------------- totality of DecompressToG1 (no primality needed) ---------------- *)
+Lemma g1_from_ints_total p x y : 0 <= x -> 0 <= y ->
+  match g1_from_ints p x y with R1 pt => valid1 p pt = true | Err1 => True | _ => False end.
+Proof.
+  intros Hx Hy. unfold g1_from_ints.
+  destruct (_ || _); [exact I|].
+  destruct (Z.leb_spec p x); [exact I|]. destruct (Z.leb_spec p y); [exact I|]. cbn [orb].
+  destruct (_ && _); [reflexivity|].
+  destruct (Z.eqb_spec ((y * y) mod p) ((x * x * x + curveB) mod p)) as [E|]; [|exact I].
+  cbn [valid1]. rewrite E, Z.eqb_refl.
+  rewrite !andb_true_iff, !Z.leb_le, !Z.ltb_lt. lia.
+Qed.
+
+Theorem decompress1_total_gen p m : 4 <= p -> m <> [] ->
+  match decompress1 p (mod_sqrt p) m with R1 pt => valid1 p pt = true | Err1 => True | _ => False end.
+Proof.
+  intros Hp Hm. destruct m as [|b0 rest]; [congruence|].
+  cbv beta iota zeta delta [decompress1].
+  destruct (mod_sqrt p _) as [s|] eqn:Es; [|exact I].
+  apply mod_sqrt_sound in Es; [|exact Hp]. destruct Es as [Hs _].
+  apply g1_from_ints_total; [apply be_nonneg|].
+  destruct (N.eqb _ _); lia.
+Qed.
+
+(* ---------------- G1HashToPoint ---------------- *)
+Lemma P_facts : P mod 4 = 3 /\ 3 < P /\ P < 2 ^ 254.
+Proof. vm_compute. repeat split; congruence. Qed.
+
+(* x = p - 1 gives x^3 + 3 = 2, a square modulo the BN254 prime: the search cannot run past it *)
+Lemma last_x_is_residue : mod_sqrt P ((P - 1) * (P - 1) * (P - 1) + curveB) <> None.
+Proof. vm_compute. discriminate. Qed.
+
+Lemma hash_loop_valid fuel : forall x r, 0 <= x <= P - 1 ->
+  hash_loop P (mod_sqrt P) fuel x = Some r ->
+  exists x' y', r = R1 (Aff1 x' y') /\ valid1 P (Aff1 x' y') = true /\ x <= x'.
+Proof.
+  destruct P_facts as [F1 [F2 F3]].
+  induction fuel as [|f IH]; intros x r Hx; cbn [hash_loop]; [discriminate|].
+  destruct (mod_sqrt P (x * x * x + curveB)) as [y|] eqn:Es.
+  - intros [= <-]. apply mod_sqrt_sound in Es; [|lia]. destruct Es as [Hy E].
+    exists x, y. split; [|split; [|lia]].
+    + apply g1_from_ints_valid; try lia.
+      cbn [valid1]. rewrite E, Z.eqb_refl, !andb_true_iff, !Z.leb_le, !Z.ltb_lt. lia.
+    + cbn [valid1]. rewrite E, Z.eqb_refl, !andb_true_iff, !Z.leb_le, !Z.ltb_lt. lia.
+  - intros H. assert (x <> P - 1).
+    { intros ->. apply last_x_is_residue. exact Es. }
+    apply IH in H; [|lia]. destruct H as [x' [y' [H1 [H2 H3]]]]. exists x', y'. repeat split; try assumption. lia.
+Qed.
+
+Theorem hash_to_point_on_curve fuel h r : hash_to_point P (mod_sqrt P) fuel h = Some r ->
+  exists x y, r = R1 (Aff1 x y) /\ valid1 P (Aff1 x y) = true.
+Proof.
+  destruct P_facts as [F1 [F2 F3]].
+  unfold hash_to_point. intros H. apply hash_loop_valid in H.
+  - destruct H as [x [y [H1 [H2 _]]]]. exists x, y. auto.
+  - pose proof (Z.mod_pos_bound h P ltac:(lia)). lia.
+Qed.
+
+Lemma hash_loop_fuel_mono f : forall f' x r, (f <= f')%nat ->
+  hash_loop P (mod_sqrt P) f x = Some r -> hash_loop P (mod_sqrt P) f' x = Some r.
+Proof.
+  induction f as [|f IH]; intros f' x r Hle; cbn [hash_loop]; [discriminate|].
+  destruct f' as [|f']; [lia|]. cbn [hash_loop].
+  destruct (mod_sqrt P _); [auto|]. apply IH. lia.
+Qed.
+
+Theorem hash_to_point_deterministic f1 f2 h r1 r2 :
+  hash_to_point P (mod_sqrt P) f1 h = Some r1 -> hash_to_point P (mod_sqrt P) f2 h = Some r2 -> r1 = r2.
+Proof.
+  unfold hash_to_point. intros H1 H2.
+  apply (hash_loop_fuel_mono f1 (Nat.max f1 f2)) in H1; [|lia].
+  apply (hash_loop_fuel_mono f2 (Nat.max f1 f2)) in H2; [|lia]. congruence.
+Qed.
+
+Lemma hash_loop_terminates_gen (pm : Z) (ms : Z -> option Z)
+  (Hlast : ms ((pm - 1) * (pm - 1) * (pm - 1) + curveB) <> None) n :
+  forall x, 0 <= x <= pm - 1 -> pm - 1 - x <= Z.of_nat n ->
+  exists r, hash_loop pm ms (S n) x = Some r.
+Proof.
+  induction n as [|n IH]; intros x Hx Hn.
+  - assert (x = pm - 1) by lia. subst x. cbn [hash_loop].
+    destruct (ms _) eqn:E; [eexists; reflexivity|]. exfalso. exact (Hlast eq_refl).
+  - change (hash_loop pm ms (S (S n)) x) with
+      (match ms (x * x * x + curveB) with
+       | Some y => Some (g1_from_ints pm x y)
+       | None => hash_loop pm ms (S n) (x + 1) end).
+    destruct (ms (x * x * x + curveB)) eqn:E; [eexists; reflexivity|].
+    assert (x <> pm - 1) by (intros ->; exact (Hlast E)).
+    apply IH; lia.
+Qed.
+
+Theorem hash_to_point_terminates h : exists fuel r, hash_to_point P (mod_sqrt P) fuel h = Some r.
+Proof.
+  destruct P_facts as [F1 [F2 F3]].
+  pose proof (Z.mod_pos_bound h P ltac:(lia)) as Hh.
+  destruct (hash_loop_terminates_gen P (mod_sqrt P) last_x_is_residue
+              (Z.to_nat (P - 1 - h mod P)) (h mod P)) as [r Hr]; [lia|lia|].
+  eexists. exists r. exact Hr.
+Qed.
+
+(* ================================================================== *)
+(* the executable validity predicate is the curve equation with reduced coordinates *)
+Lemma valid1_iff p x y : valid1 p (Aff1 x y) = true <->
+  (0 <= x < p /\ 0 <= y < p /\ (y * y) mod p = (x * x * x + 3) mod p).
+Proof.
+  cbn [valid1]. unfold curveB. rewrite !andb_true_iff, !Z.leb_le, !Z.ltb_lt, Z.eqb_eq. tauto.
+Qed.
+
+(* ---------------- instances at the BN254 base-field prime ---------------- *)
+Theorem g1_roundtrip : prime P -> forall x y,
+  0 <= x < P -> 0 <= y < P -> (y * y) mod P = (x * x * x + 3) mod P ->
+  decompress1 P (mod_sqrt P) (compress1 (Aff1 x y)) = R1 (Aff1 x y).
+Proof.
+  intros HP x y Hx Hy E. destruct P_facts as [F1 [F2 F3]].
+  apply g1_roundtrip_gen; try assumption; try lia.
+  apply valid1_iff. auto.
+Qed.
+
+(* the identity has no compressed encoding: Compress gives 32 zero bytes, which do not decode
+   (3 is not a square modulo p) *)
+Theorem g1_identity_roundtrip_refuted :
+  decompress1 P (mod_sqrt P) (compress1 Inf1) = Err1.
+Proof. vm_compute. reflexivity. Qed.
+
+Theorem decompress1_total m : m <> [] ->
+  match decompress1 P (mod_sqrt P) m with
+  | R1 Inf1 => True
+  | R1 (Aff1 x y) => 0 <= x < P /\ 0 <= y < P /\ (y * y) mod P = (x * x * x + 3) mod P
+  | Err1 => True
+  | Panic1 | Hang1 => False
+  end.
+Proof.
+  intros Hm. destruct P_facts as [F1 [F2 F3]].
+  pose proof (decompress1_total_gen P m ltac:(lia) Hm) as T.
+  destruct (decompress1 P (mod_sqrt P) m) as [[|x y]| | |]; try exact T; try exact I.
+  apply valid1_iff. exact T.
+Qed.
+
+(* ---------------- non-vacuity ---------------- *)
+Lemma prime_7 : prime 7.
+Proof.
+  apply prime_intro; [lia|]. intros n Hn.
+  assert (H : n = 1 \/ n = 2 \/ n = 3 \/ n = 4 \/ n = 5 \/ n = 6) by lia.
+  destruct H as [->|[->|[->|[->|[->| ->]]]]]; apply Zgcd_1_rel_prime; reflexivity.
+Qed.
+
+(* the generic theorem at p = 7 (all hypotheses proved), on the point (1, 2) of y^2 = x^3 + 3 *)
+Example g1_roundtrip_p7 :
+  decompress1 7 (mod_sqrt 7) (compress1 (Aff1 1 2)) = R1 (Aff1 1 2).
+Proof.
+  apply (g1_roundtrip_gen 7 prime_7); [reflexivity|lia|lia|reflexivity].
+Qed.
+(* the BN254 generator (1, 2) satisfies the hypotheses of [g1_roundtrip] *)
+Example g1_generator_valid : 0 <= 1 < P /\ 0 <= 2 < P /\ (2 * 2) mod P = (1 * 1 * 1 + 3) mod P.
+Proof. vm_compute. repeat split; congruence. Qed.
